@@ -253,12 +253,7 @@ func (x *Exec) lenOf(st *State, v Val) Val {
 		switch tt := v.Ty.Underlying().(type) {
 		case *types.Map:
 			dom, _, ks, _ := x.u.mapKeys(tt)
-			fn := "mapcard_" + sortId(ks)
-			if !x.u.sortSeen[fn] {
-				x.u.sortSeen[fn] = true
-				x.u.sortDecl = append(x.u.sortDecl, fmt.Sprintf("(declare-fun %s ((Array %s Bool)) Int)", fn, ks),
-					fmt.Sprintf("(assert (forall ((d (Array %s Bool))) (! (>= (%s d) 0) :pattern ((%s d)))))", ks, fn, fn))
-			}
+			fn := x.mapcardFn(ks)
 			return Val{T: fmt.Sprintf("(%s (select %s %s))", fn, x.getHeap(st, dom), v.T), S: "Int", Ty: it}
 		case *types.Array:
 			return Val{T: fmt.Sprint(tt.Len()), S: "Int", Ty: it}
@@ -488,4 +483,17 @@ func (x *Exec) chanElemSort(t types.Type) string {
 		}
 	}
 	return "Int"
+}
+
+// mapcardFn declares the cardinality function of key sets of sort ks with its update axioms.
+func (x *Exec) mapcardFn(ks string) string {
+	fn := "mapcard_" + sortId(ks)
+	if !x.u.sortSeen[fn] {
+		x.u.sortSeen[fn] = true
+		x.u.sortDecl = append(x.u.sortDecl, fmt.Sprintf("(declare-fun %s ((Array %s Bool)) Int)", fn, ks),
+			fmt.Sprintf("(assert (forall ((d (Array %s Bool))) (! (>= (%s d) 0) :pattern ((%s d)))))", ks, fn, fn),
+			fmt.Sprintf("(assert (forall ((d (Array %s Bool)) (k %s)) (! (= (%s (store d k true)) (+ (%s d) (ite (select d k) 0 1))) :pattern ((%s (store d k true))))))", ks, ks, fn, fn, fn),
+			fmt.Sprintf("(assert (forall ((d (Array %s Bool)) (k %s)) (! (= (%s (store d k false)) (- (%s d) (ite (select d k) 1 0))) :pattern ((%s (store d k false))))))", ks, ks, fn, fn, fn))
+	}
+	return fn
 }
